@@ -602,6 +602,11 @@ void cmi_process_cancel_awaiteds(struct cmb_process *pp)
             cmb_assert_debug(pa->ptr != NULL);
             struct cmb_resourceguard *rgp = pa->ptr;
             (void)cmb_resourceguard_remove(rgp, pp);
+            if (!rgp->evaluate_all) {
+                /* It may have been granted already (off the queue, wakeup on
+                 * its way and about to be cancelled below): pass it on */
+                (void)cmb_resourceguard_signal(rgp);
+            }
         }
         else if (pa->type == CMI_PROCESS_AWAITABLE_PROCESS) {
             /* Waits for a process to end, remove ourselves from the waiter list */
